@@ -1591,6 +1591,44 @@ def rule_r8(chk, prog, reg):
     chk.floor('C14.R8', 'is_relevant implementations', n, 5)
 
 
+def rule_r14(chk, prog):
+    chk.rule('C14.R14', 'a scheduled mutator is really applied: every '
+             'normal path through _apply_mutator hands the mutator on to the '
+             'task generator before it returns, and every iteration of the '
+             'loops over a pass in ddmin\'s reduce hands the mutator to '
+             '_apply_mutator - no test of the mutator\'s own attributes '
+             'skips it')
+    from .. import mustpass
+    dm = prog.mod('strategy_ddmin')
+    f = dm.func('_apply_mutator')
+    pn = params_of(f)[0]
+    r = mustpass.function_must_consult(f, pn)
+    chk.check('C14.R14', 'strategy_ddmin._apply_mutator',
+              f'every return follows a use of {pn}', r is None,
+              f'"{unparse(r)[:50] if r is not None else ""}" is reached '
+              f'without "{pn}" having been handed to the task generator: '
+              'for the mutators that take this path (e.g. those that only '
+              'define global_mutations) ddmin tests nothing although they '
+              'are enabled and listed in the pass',
+              loc=dm.loc(r) if r is not None else dm.loc(f), nontrivial=True)
+    g = dm.func('reduce')
+    n = 0
+    for lp in ast.walk(g):
+        if isinstance(lp, ast.For) and isinstance(lp.target, ast.Name) and \
+                'passes' in unparse(lp.iter):
+            n += 1
+            hit = mustpass.loop_must_consult(g, lp, lp.target.id)
+            chk.check('C14.R14', 'strategy_ddmin.reduce',
+                      f'for {lp.target.id} in {unparse(lp.iter)}',
+                      hit is None,
+                      f'an iteration of "for {lp.target.id} in '
+                      f'{unparse(lp.iter)}" can end without '
+                      f'"{lp.target.id}" having been applied: enabled '
+                      'mutators of the pass are skipped', loc=dm.loc(lp),
+                      nontrivial=True)
+    chk.floor('C14.R14', 'loops over a pass in ddmin.reduce', n, 2)
+
+
 def run(tier):
     prog = Program()
     chk = Check(
@@ -1671,6 +1709,19 @@ def run(tier):
     chk.adopt('C14.R13', 'the arguments of the command are not interpreted '
               'as mutator toggles: the positional "cmd" takes the remainder '
               'of the command line verbatim (shared with C09.R4)', sub09)
+    chk.guard(rule_r14, chk, prog)
+    # theory detection looks at every node of a sort (shared with C12.R5)
+    from . import c12 as _c12
+    sub12 = Check('C12', 'other', tier, [], [])
+    chk.guard(_c12.rule_r5, sub12, prog)
+    chk.guard(_c12.rule_r5_depth, sub12, prog)
+    Check.restrict(sub12, lambda wh, what: any(
+        k in str(wh) for k in ('nodes.dfs', 'nodes.contains',
+                               'nodes.filter_nodes')))
+    chk.adopt('C14.R15', 'contains() - the test behind every theory\'s '
+              'is_relevant - visits every node of the sort it is given: a '
+              'theory sort nested inside Array / Set / parametric sorts is '
+              'found (shared with the dfs part of C12.R5)', sub12)
     extra = None
     if tier == 'thorough':
         from .. import selftest
